@@ -30,6 +30,9 @@ type e1Spec struct {
 	digSat   int
 	maxLen   int
 	noPump   bool
+	// handWritten: part of the explored code is hand-written (no liveness hook), so recovery
+	// exploration past reference-dead children is always on.
+	handWritten bool
 	// refAliveOnly: an implementation that is still alive where the reference is dead does not
 	// extend the search (used where the property only constrains reference-accepted inputs).
 	refAliveOnly bool
@@ -131,7 +134,16 @@ func runE1(r *eng.Run, sp e1Spec, D, K, maxStates int) e1Result {
 		}
 		return cfg
 	}
-	res.st = eng.PfxBFS(r, sp.roots, visit, maxStates)
+	delta := 0
+	if sp.probe == nil || !wb || sp.handWritten {
+		// no (complete) liveness hook: explore one level past reference-dead children
+		delta = r.Pick(1, 2)
+	} else if r.Thorough() {
+		delta = 1
+	}
+	eng.Complete = func(x []byte) []byte { return ref.Run(x).Completion() }
+	res.st = eng.PfxBFSDelta(r, sp.roots, visit, maxStates, delta)
+	r.Set("delta_recovery_levels", delta)
 	if res.st.Capped {
 		r.Inexhaustive(fmt.Sprintf("state cap %d reached (or too many violations)", maxStates))
 	}
